@@ -219,6 +219,17 @@ func (C08) Gen(rng *core.Rng, tier string, idx int) *core.Scenario {
 			}
 			sh := core.Pick(rng, shapes)
 			op = c08Op{Kind: "segname", What: sh.what, Expect: sh.expect, Target: q(c08Join(parts, ar.Asset+"/"+sh.name))}
+			if rng.Chance(0.08) && a.Reps[rep].ContentType != "image" { // (thumbnails keep $Number$ addressing)
+				// $Time$ addressing with a time that is no segment start (one tick after one): there is no such segment
+				if tg, ok := modelTarget(a, URLCfg{MPDType: "timeline"}, rep, n); ok {
+					if i, j := strings.LastIndex(tg.URL, "/"), strings.LastIndex(tg.URL, "."); i >= 0 && j > i {
+						if t, err := strconv.ParseInt(tg.URL[i+1:j], 10, 64); err == nil {
+							name := fmt.Sprintf("%s%d%s", tg.URL[:i+1], t+1, tg.URL[j:])
+							op = c08Op{Kind: "segname", What: "time-not-a-segment-start", Expect: "404", Target: q(c08Join([]string{"segtimeline_1"}, ar.Asset+"/"+name))}
+						}
+					}
+				}
+			}
 			if sh.what == "unknown-rep" && len(parts) > 0 {
 				op.Expect = "any"
 			}
